@@ -274,10 +274,22 @@ def step(st: State, op, viol):
                         if observe(net) != before:
                             viol.append(("add:unknown-station-changed-state", "refused constraint changed the table", None, None))
                         return s
-                if too_deep(s.rows, name):
-                    return None
                 n_before = len(net.constraint_index)
-                net.add_constraint(cur, limit, name)
+                if too_deep(s.rows, name):
+                    # name and name_v2 are both taken: the documented rule covers one duplicate. The library may refuse
+                    # (table untouched) or invent whatever name it likes (taken over below); rows, limits and names must
+                    # stay aligned either way - also when two rows end up with the same name
+                    before = observe(net)
+                    try:
+                        net.add_constraint(cur, limit, name)
+                    except Exception as exc:
+                        guard(exc)
+                        if observe(net) != before:
+                            viol.append(("add:refused-duplicate-changed-state", "a refused add_constraint under a name taken twice changed the table", None, None))
+                            return None
+                        return s
+                else:
+                    net.add_constraint(cur, limit, name)
                 model_add(s.rows, name, coefs, limit, net.constraint_index[-1] if len(net.constraint_index) == n_before + 1 else None)
                 s.ever = True
                 tag = shape(e)
@@ -323,7 +335,7 @@ def step(st: State, op, viol):
                             viol.append(("update:unknown-changed-state", "refused update changed the table", None, None))
                         return s
                 if too_deep(model_remove(s.rows, n), new if new is not None else n):
-                    return None
+                    return None  # an update may be refused half-way (remove done, add refused): outside the alphabet
                 n_before = len(net.constraint_index)
                 net.update_constraint(n, cur, limit, new)
                 s.rows = model_remove(s.rows, n)
@@ -577,6 +589,10 @@ def space(tier, seed):
                 [["add", 4, None], ["add", 0, "x1"], ["add", 12, None]],
                 # unnamed constraints interleaved with a removal: the invented names are _const_1, _const_2, _const_2_v2
                 [["add", 0, None], ["add", 6, None], ["add", 3, None], ["rem", "_const_0"], ["add", 12, None]],
+                # tables in which two rows already carry the SAME name (a name taken three times over; an invented name
+                # colliding twice): a removal by that name must take out one row, one limit and one name
+                [["add", 0, "c1"], ["add", 6, "c1"], ["add", 3, "c1"]],
+                [["add", 0, None], ["add", 6, None], ["add", 3, None], ["rem", "_const_0"], ["add", 12, None], ["rem", "_const_1"], ["add", 4, None]],
             ):
                 items.append({"order": order, "root": pre, "depth": 2, "full": False})
             # ... and tables that went through a JSON round trip before the edits continue
